@@ -2,6 +2,12 @@
 """Regenerate the table of section 8 of DESIGN.md from seeded/*/meta.json (strengthening notes are kept here)."""
 import glob, json, os, re
 NOTES = {
+ 'C02-I': 'not seen by C02 (which runs without replacements); caught by C13, whose property it also breaks',
+ 'C03-I': 'not seen by C03 (no document of the shared generator loads a package twice); C09 got a metamorphic run: a user redefinition of a package macro must survive a repeated \\usepackage, class options varied',
+ 'C08-I': 'missed at first; the file read in front of the fault now also reads a further file or loads packages that define macros by LaTeX text (two nesting levels)',
+ 'C13-I': 'missed at first; rule lines without & added (de-facto reading "whole line is the phrase, empty replacement" and the reading "line ignored" both accepted)',
+ 'C15-I': 'missed at first; document with removed lines between two text lines, every offset / length pair inside the text (incl. length 0) in all five report formats',
+ 'C18-I': 'missed at first; skip region whose opening marker is the first token of the text or directly follows the end marker of the previous region',
  'C02-G': 'caught by the check as it stood (re-based after fix F25 touched the same lines)',
  'C02-H': 'missed at first; a share of the environment delimiters is rendered with white space between \\begin / \\end and the name',
  'C03-G': 'missed at first; brackets as text (a closing one anywhere, both kinds inside a group) - all optional arguments of the renderer are written as [{..}]',
@@ -89,7 +95,7 @@ for d in sorted(glob.glob('/verif/seeded/*')):
     notes = re.sub(r'\s+', ' ', open(d + '/notes.md', encoding='utf-8').read().strip())
     short = (notes[:230].rsplit(' ', 1)[0] + ' ...').replace('|', '\\|')
     meta['strengthening'] = NOTES.get(sid, 'caught by the check as first built')
-    meta['round'] = 4 if sid[-1] in 'GH' else 3 if sid[-1] in 'EF' else (2 if sid[-1] in 'CD' else 1)
+    meta['round'] = 5 if sid[-1] in 'IJ' else 4 if sid[-1] in 'GH' else 3 if sid[-1] in 'EF' else (2 if sid[-1] in 'CD' else 1)
     json.dump(meta, open(d + '/meta.json', 'w'), indent=1, ensure_ascii=False)
     det = ', '.join(meta['detected_by_checks']) + (', C04' if sid == 'C01-B' else '')
     rows.append('| %s | %s | %s | %s |' % (sid, det, short, meta['strengthening']))
